@@ -610,6 +610,54 @@ Theorem C18_observe_cubic_nodes :
 Proof. exact td_observe_cubic_nodes. Qed.
 Print Assumptions C18_observe_cubic_nodes.
 
+(* samples of a polynomial of degree <= 3 in x and in t (bipoly 3 A x t = sum_ij A_ij x^i t^j) are observed as that polynomial
+   at EVERY observation node and time; points outside the data rectangle at the nearest boundary point (fitpack) *)
+Theorem C18_interp2_cubic_reproduces_bicubics :
+  forall (A : qm) (gs ts go to : qv) (m : qm), wf_mat 4 A -> length A = 4%nat ->
+  interp2_cubic gs ts (map (fun t => map (fun x => bipoly 3 A x t) gs) ts) go to = Ok m ->
+  m = map (fun x => map (fun t => bipoly 3 A (clamp_range gs x) (clamp_range ts t)) to) go.
+Proof. exact interp2_cubic_reproduces_bicubics. Qed.
+Print Assumptions C18_interp2_cubic_reproduces_bicubics.
+
+Example C18_example_interp2_cubic :
+  let gs := qvec [0 # 1; 1 # 1; 2 # 1; 4 # 1] in let ts := qvec [0 # 1; 1 # 2; 1 # 1; 3 # 1; 4 # 1] in
+  let A := qmat [[1 # 1; 0 # 1; 2 # 1; 0 # 1]; [0 # 1; 1 # 1; 0 # 1; 0 # 1]; [0 # 1; 0 # 1; 0 # 1; 1 # 1]; [1 # 2; 0 # 1; 0 # 1; 0 # 1]] in
+  wf_mat 4 A /\ length A = 4%nat /\
+  exists m, interp2_cubic gs ts (map (fun t => map (fun x => bipoly 3 A x t) gs) ts) (qvec [1 # 2; 3 # 1]) (qvec [1 # 4; 2 # 1; 5 # 1]) = Ok m.
+Proof. exact ex_interp2_cubic. Qed.
+
+(* "the PDE-based model's output is that of the assemble-solve-observe pipeline", with the interpolation routines that run.
+   Steady, unequal grids, no observation map: at an observation node that is a solution node the model returns the solver's
+   value there; a solver vector that is a quadratic on grid_sol comes back as that quadratic on the whole observation grid *)
+Theorem C18_pipeline_steady_quad :
+  forall (P I : Type) (solver : nat -> qm -> qv -> sret I) (sform : P -> qm * qv) (G : grids) (s : sstate) (p : P)
+         (gs go out : qv),
+  g_eq G = false -> g_sol G = Some gs -> g_obs G = Some go ->
+  ss_forward P I solver sform None interp1_quad G s p = Ok (A1 out) ->
+  let u := sret_sol (solver 0%nat (fst (sform p)) (snd (sform p))) in
+  length out = length go /\
+  (forall i a x, nth_error go i = Some x -> nth_error gs a = Some x -> nth i out 0 = nth a u 0) /\
+  (forall a b c, u = map (fun x => a + b * x + c * x * x) gs -> out = map (fun x => a + b * x + c * x * x) go).
+Proof. exact ss_forward_quad_nodes. Qed.
+Print Assumptions C18_pipeline_steady_quad.
+
+(* time-dependent, spline route, several observation times, no observation map, either Euler method: the model's output has one
+   row per observation node and one column per observation time, and at a coinciding node and time it is the stored level value *)
+Theorem C18_pipeline_cubic_nodes :
+  forall (P I : Type) (solver : nat -> qm -> qv -> sret I) (form : P -> Qc -> qm * qv * qv) (Q : quirks)
+         (G : grids) (m : method) (times tobs : qv) (prev : option P) (p : P) (gs go : qv) (levels : list qv)
+         (info : option (list I)) (M : qm),
+  td_solve P I solver form Q m (Some p) times = Ok (levels, info) ->
+  g_eq G && time_test Q times tobs = false -> coincide_restriction Q G times tobs levels = None ->
+  g_sol G = Some gs -> g_obs G = Some go -> (length tobs <> 1)%nat ->
+  td_forward P I solver form Q None interp2_cubic G m times tobs prev p = Ok (A2 M) ->
+  length M = length go /\ Forall (fun row => length row = length tobs) M /\
+  forall i j a b, nth_error go i = nth_error gs a -> nth_error go i <> None ->
+                  nth_error tobs j = nth_error times b -> nth_error tobs j <> None ->
+                  nth j (nth i M []) 0 = nth a (nth b levels []) 0.
+Proof. exact td_forward_cubic_nodes. Qed.
+Print Assumptions C18_pipeline_cubic_nodes.
+
 (* ======================= the repaired squeeze ======================= *)
 (* it never changes the VALUES (C-order flattening of the result) ... *)
 Theorem C18_squeeze_values : forall a : arr, arr_flat (squeeze a) = arr_flat a.
@@ -651,6 +699,30 @@ Theorem C18_squeeze_keeps_several_times :
   forall (r c : nat) (m : qm), rect r c m -> (1 <= r)%nat -> c <> 1%nat -> squeeze (A2 m) = A2 m.
 Proof. exact squeeze_keeps_several_times. Qed.
 Print Assumptions C18_squeeze_keeps_several_times.
+
+(* tied to td_observe as it runs, ONE observation time, no observation map.  Spline route: the (n_obs, 1) answer loses exactly
+   its time axis -- one entry per observation node, also for a single node --; entries at coinciding nodes/times are stored values *)
+Theorem C18_observe_cubic_single_time :
+  forall (Q : quirks) (G : grids) (gs go times : qv) (t : Qc) (levels : list qv) (m : qm),
+  g_eq G && time_test Q times [t] = false -> coincide_restriction Q G times [t] levels = None ->
+  g_sol G = Some gs -> g_obs G = Some go ->
+  interp2_cubic gs times levels go [t] = Ok m ->
+  let v := map (fun row => hd 0 row) m in
+  td_observe Q None interp2_cubic G times [t] levels = Ok (true, A1 v) /\
+  length v = length go /\
+  forall i a b, nth_error go i = nth_error gs a -> nth_error go i <> None -> nth_error times b = Some t ->
+                nth i v 0 = nth a (nth b levels []) 0.
+Proof. exact td_observe_cubic_single_time. Qed.
+Print Assumptions C18_observe_cubic_single_time.
+
+(* restriction at coinciding nodes and times, one observation time: the same shape rule *)
+Theorem C18_observe_coinciding_single_time :
+  forall (Q : quirks) (interp2 : qv -> qv -> list qv -> qv -> qv -> res qm) (G : grids) (times : qv) (t : Qc)
+         (levels : list qv) (m : qm),
+  g_eq G && time_test Q times [t] = false -> coincide_restriction Q G times [t] levels = Some m ->
+  td_observe Q None interp2 G times [t] levels = Ok (false, A1 (map (fun row => hd 0 row) m)).
+Proof. exact td_observe_coinciding_single_time. Qed.
+Print Assumptions C18_observe_coinciding_single_time.
 
 (* ======================= every return convention of linalg_solve the code accepts ======================= *)
 (* `isinstance(returned_values, tuple)`: a value alone -> (value, None); a tuple, a 1-tuple or a tuple subclass (x, v1, ..)
@@ -736,3 +808,62 @@ Example C18_example_squeeze :
   squeeze (A2 [[qc (2 # 1)]; [qc (4 # 1)]; [qc (6 # 1)]]) = A1 [qc (2 # 1); qc (4 # 1); qc (6 # 1)] /\
   apply_obsmap (omap_fun OMFirst) (A2 m) = Ok (A1 [qc (1 # 1)]).
 Proof. exact ex_squeeze. Qed.
+
+(* ======================= what the in-model interpolation routines refuse ======================= *)
+Theorem C18_interp1_quad_refuses :
+  forall (gs sol go : qv),
+  ((length gs < 3)%nat \/ length sol <> length gs \/ exists x, In x go /\ in_range gs x = false) ->
+  interp1_quad gs sol go = Er EValue.
+Proof. exact interp1_quad_refuses. Qed.
+Print Assumptions C18_interp1_quad_refuses.
+
+Theorem C18_interp2_cubic_refuses :
+  forall (gs ts : qv) (sol : list qv) (go to : qv),
+  ((strictly_inc gs = false \/ strictly_inc ts = false) -> interp2_cubic gs ts sol go to = Er EValue) /\
+  (strictly_inc gs = true -> strictly_inc ts = true ->
+   length sol = length ts -> Forall (fun lv => length lv = length gs) sol ->
+   ((length gs < 4)%nat \/ (length ts < 4)%nat) -> interp2_cubic gs ts sol go to = Er EOther).
+Proof. exact interp2_cubic_refuses. Qed.
+Print Assumptions C18_interp2_cubic_refuses.
+
+(* THE OPEN FINDING (TimeDependentLinearPDE.observe|coinciding-subgrid-nodes:spline-route-raises) as a theorem about the routine
+   that runs -- in C18_observe_coinciding_refuted the refusal of the spline was a hypothesis --: on today's tree
+   (q_subgrid_route = true) an observation grid that differs from the solution grid, also one whose nodes are all solution nodes
+   at times that are all time steps, is refused with fewer than 4 nodes or 4 time levels.  The repaired route answers it
+   (C18_example_subgrid_refused, C18_observe_coinciding). *)
+Theorem C18_observe_subgrid_refuted :
+  forall (Q : quirks) (G : grids) (gs go times tobs : qv) (levels : list qv),
+  q_subgrid_route Q = true -> g_eq G = false -> g_sol G = Some gs -> g_obs G = Some go ->
+  strictly_inc gs = true -> strictly_inc times = true ->
+  length levels = length times -> Forall (fun lv => length lv = length gs) levels ->
+  ((length gs < 4)%nat \/ (length times < 4)%nat) ->
+  td_observe Q None interp2_cubic G times tobs levels = Er EOther.
+Proof. exact observe_subgrid_refused_cubic. Qed.
+Print Assumptions C18_observe_subgrid_refuted.
+
+Example C18_example_subgrid_refused :
+  let gs := qvec [0 # 1; 1 # 2; 1 # 1; 3 # 2] in let go := qvec [1 # 2; 1 # 1] in
+  let times := qvec [0 # 1; 1 # 4; 1 # 2] in
+  let levels := [qvec [1 # 1; 2 # 1; 3 # 1; 4 # 1]; qvec [2 # 1; 3 # 1; 4 # 1; 5 # 1]; qvec [3 # 1; 5 # 1; 7 # 1; 9 # 1]] in
+  let G := init_grids (Some gs) (Some go) in
+  g_eq G = false /\ strictly_inc gs = true /\ strictly_inc times = true /\
+  td_observe quirks_minimal None interp2_cubic G times (qvec [1 # 2]) levels = Er EOther /\
+  td_observe quirks_repaired None interp2_cubic G times (qvec [1 # 2]) levels = Ok (false, A1 (qvec [5 # 1; 7 # 1])).
+Proof. exact ex_subgrid_refused. Qed.
+
+(* non-vacuity of the hypotheses of C18_pipeline_steady_quad and C18_pipeline_cubic_nodes *)
+Example C18_example_pipeline_interp :
+  let G := init_grids (Some (qvec [0 # 1; 1 # 1; 2 # 1; 4 # 1])) (Some (qvec [1 # 2; 2 # 1])) in
+  g_eq G = false /\
+  ss_forward qv Z exi_solver exi_sform None interp1_quad G (mkSS None) (qvec [1 # 1; 2 # 1; 5 # 1; 17 # 1])
+    = Ok (A1 (qvec [5 # 4; 5 # 1])) /\
+  let times := qvec [0 # 1; 1 # 1; 2 # 1; 3 # 1] in let tobs := qvec [1 # 2; 2 # 1] in
+  let G2 := init_grids (Some (qvec [0 # 1; 1 # 1; 2 # 1; 3 # 1])) (Some (qvec [1 # 2; 2 # 1])) in
+  let p := qvec [1 # 1; 0 # 1; 4 # 1; 2 # 1] in
+  exists levels M,
+    td_solve qv Z exi_solver exi_form quirks_minimal MFwd (Some p) times = Ok (levels, None) /\
+    g_eq G2 && time_test quirks_minimal times tobs = false /\
+    coincide_restriction quirks_minimal G2 times tobs levels = None /\
+    td_forward qv Z exi_solver exi_form quirks_minimal None interp2_cubic G2 MFwd times tobs None p = Ok (A2 M) /\
+    nth 1 (nth 1 M []) 0 = nth 2 (nth 2 levels []) 0.
+Proof. exact ex_pipeline_interp. Qed.
